@@ -173,20 +173,42 @@ class Evidence:
 
 _built = False
 
+# which harness binaries each check needs (besides vh and fontc); a compile error in any OTHER module's
+# binary must not stop this check (cargo --keep-going leaves the others alone)
+CHECK_BINS = {
+    "C03": ["vh-instancing"], "C04": ["vh-instancing"], "C05": ["vh-sfnt", "vh-summary"], "C06": ["vh-glyphset"],
+    "C07": ["vh-varmodel"], "C08": ["vh-coords"], "C09": ["vh-kerning"], "C10": ["vh-marks"],
+    "C11": ["vh-feasem"], "C12": ["vh-components"], "C13": ["vh-feaparse"], "C14": ["vh-persist"],
+    "C16": ["vh-featvars"], "C17": ["vh-summary", "vh-sfnt"], "C18": ["vh-names"], "C19": ["vh-limits"],
+    "C20": ["vh-routes"],
+}
+CURRENT_PID = None
 
-def build_harness():
-    """Rebuild vh + the fontc CLI from /repo's working tree (hooks on). Incremental: seconds."""
+
+def build_harness(need=None):
+    """Rebuild the harness binaries + the fontc CLI from /repo's working tree (hooks on). Incremental.
+
+    Every module is its own binary (vh-<module>); only a failure to build a binary this check needs
+    (vh, fontc, CHECK_BINS[pid] or `need`) is an error."""
     global _built
     if _built:
         return
     env = dict(os.environ)
     env["CARGO_NET_OFFLINE"] = "true"
+    needed = {"vh", "fontc"} | set(need or CHECK_BINS.get(CURRENT_PID or "", []))
     t = time.time()
-    r = subprocess.run(["cargo", "build", "--offline", "-q", "-p", "vh", "-p", "fontc", "--bins"], cwd=HARNESS,
-                       env=env, capture_output=True, text=True)
+    r = subprocess.run(["cargo", "build", "--offline", "-p", "vh", "-p", "fontc", "--bins", "--keep-going"],
+                       cwd=HARNESS, env=env, capture_output=True, text=True)
     if r.returncode != 0:
-        sys.stderr.write(r.stderr[-4000:])
-        tool_error("harness build failed")
+        failed = set(re.findall(r'could not compile `\w+` \(bin "([\w-]+)"\)', r.stderr))
+        libfail = re.findall(r"could not compile `([\w-]+)` \(lib\)", r.stderr)
+        if libfail or (failed & needed) or not failed:
+            sys.stderr.write(r.stderr[-4000:])
+            tool_error("harness build failed: %s" % sorted((failed & needed) or libfail or ["?"]))
+        log("note: other modules' binaries do not build right now (ignored): %s" % sorted(failed))
+    for b in needed:
+        if not os.path.exists(os.path.join(HARNESS, "target", "debug", b)):
+            tool_error("harness binary %s missing after build" % b)
     log("harness built in %.0fs" % (time.time() - t))
     _built = True
 
@@ -390,3 +412,78 @@ def fixtures(exts=(".designspace", ".glyphs", ".ufo", ".glyphspackage")):
             if f.endswith(exts) and not f.endswith(".ufo"):
                 out.append(os.path.normpath(os.path.join(rel, f)))
     return sorted(out)
+
+
+# ----------------------------------------------------------------------------- fontc CLI as a subprocess
+
+
+def run_fontc(src, out, extra=(), timeout=30, mem_gb=8, env=None, binary=None):
+    """Run the fontc binary on `src` writing `out`. Returns an observation dict:
+    how: exited|signaled|timedout, status, signal, font: none|valid|garbage, diag (bool), stderr (tail), wall."""
+    import resource, signal as _signal
+
+    def limits():
+        try:
+            resource.setrlimit(resource.RLIMIT_AS, (mem_gb << 30, mem_gb << 30))
+            resource.setrlimit(resource.RLIMIT_CORE, (0, 0))
+        except Exception:
+            pass
+
+    if os.path.exists(out):
+        os.remove(out)
+    e = dict(os.environ)
+    e["SOURCE_DATE_EPOCH"] = "1700000000"
+    if env:
+        e.update(env)
+    build_dir = out + ".build"
+    cmd = [binary or FONTC, src, "-o", out, "--build-dir", build_dir] + list(extra)
+    t = time.time()
+    obs = {"how": "exited", "status": 0, "signal": 0}
+    try:
+        p = subprocess.run(cmd, capture_output=True, timeout=timeout, env=e, preexec_fn=limits)
+        err = p.stderr.decode("utf-8", "replace")
+        if p.returncode < 0:
+            obs["how"] = "signaled"
+            obs["signal"] = -p.returncode
+        else:
+            obs["status"] = p.returncode
+    except subprocess.TimeoutExpired as ex:
+        obs["how"] = "timedout"
+        err = (ex.stderr or b"").decode("utf-8", "replace") if isinstance(ex.stderr, (bytes, type(None))) else str(ex.stderr)
+    obs["wall"] = round(time.time() - t, 3)
+    obs["stderr"] = err[-600:]
+    obs["diag"] = bool(err.strip())
+    if os.path.exists(out) and os.path.getsize(out) > 0:
+        obs["font"] = "valid" if font_parses(out) else "garbage"
+    elif os.path.exists(out):
+        obs["font"] = "garbage"
+    else:
+        obs["font"] = "none"
+    shutil.rmtree(build_dir, ignore_errors=True)
+    return obs
+
+
+def font_parses(path):
+    """Structural sanity of an sfnt file: directory in bounds, required tables present (cheap, stdlib only)."""
+    import struct
+    try:
+        data = open(path, "rb").read()
+        if len(data) < 12:
+            return False
+        ver, n = struct.unpack(">IH", data[:6])
+        if ver not in (0x00010000, 0x4F54544F) or n == 0 or 12 + 16 * n > len(data):
+            return False
+        tags = set()
+        for i in range(n):
+            tag, _cs, off, ln = struct.unpack(">4sIII", data[12 + 16 * i: 28 + 16 * i])
+            if off + ln > len(data):
+                return False
+            tags.add(tag.decode("latin1"))
+        return {"head", "maxp", "cmap", "hmtx", "hhea", "name", "post"} <= tags
+    except Exception:
+        return False
+
+
+def parallel(fn, items, procs=8):
+    with concurrent.futures.ThreadPoolExecutor(procs) as ex:
+        return list(ex.map(fn, items))
